@@ -1532,7 +1532,7 @@ func returnLeaves(fn *ssa.Function, i int) []retLeaf {
 
 // nilTest is one branch on `v == nil` / `v != nil` (either operand order): the successors on which v is non-nil and nil.
 type nilTest struct {
-	iff            *ssa.If
+	iff           *ssa.If
 	nonNil, isNil *ssa.BasicBlock
 }
 
